@@ -319,10 +319,33 @@ func (e *Explorer) Explore() *Stats {
 				e.st.Replayed++
 				if !sameRun(res, r2) {
 					e.st.NonDet++
+					if os.Getenv("VERIF_DEBUG") != "" {
+						fmt.Fprintf(os.Stderr, "NONDET choices=%v\n", res.Choices())
+						for _, rr := range []*ExecResult{res, r2} {
+							fmt.Fprintf(os.Stderr, "  %s:", rr.Status)
+							for _, s := range rr.Steps {
+								fmt.Fprintf(os.Stderr, " [%d/%d %s]", s.Pick, s.N, s.Label)
+							}
+							if rr.Outcome != nil {
+								fmt.Fprintf(os.Stderr, " => %s", rr.Outcome.Key)
+							}
+							fmt.Fprintln(os.Stderr)
+						}
+					}
 				}
 			}
 			if count && e.isViolation(res) && len(e.st.Violations) < e.MaxViol {
 				e.handleViolation(res, level)
+			}
+			if res.Status == StSteps && os.Getenv("VERIF_DEBUG") != "" {
+				fmt.Fprintf(os.Stderr, "MAXSTEPS prefix=%v\n", it.prefix)
+				for i, s := range res.Steps {
+					if i < 60 || i > len(res.Steps)-30 {
+						fmt.Fprintf(os.Stderr, " [%d/%d %s@%d]", s.Pick, s.N, s.Label, s.At)
+					}
+				}
+				fmt.Fprintln(os.Stderr)
+				os.Exit(3)
 			}
 			if res.Status == StDiverged && os.Getenv("VERIF_DEBUG") != "" {
 				fmt.Fprintf(os.Stderr, "DIVERGED prefix=%v note=%s\n", it.prefix, res.Note)
